@@ -101,9 +101,16 @@ TextRadix(t) == IF RadixOf(t) = 0 THEN 2 ELSE RadixOf(t)
 MostNegativeOf(t, v) ==
     ~IsScaledT(t) /\ \/ (InnerT(t).k = "int" /\ InnerT(t).s = 1 /\ v = TMin(AsIntT(InnerT(t))))
                      \/ (t.k = "wide" /\ InnerT(t).s = 1 /\ v = Neg(Pow2(t.digits)))
+\* number of characters of the canonical numeral of a in the given base (sign included)
+RECURSIVE NumeralDigits(_, _, _, _)
+NumeralDigits(mag, base, pw, k) == IF Gt(pw, mag) THEN k ELSE NumeralDigits(mag, base, MulSmall(pw, base), k + 1)
+NumeralLen(a, base) == (IF a.n THEN 1 ELSE 0) + (IF IsZero(a) THEN 1 ELSE NumeralDigits(Abs(a), base, One, 0))
 JudgeTc(e, i) ==
-    LET bd == BufferDiag(e)
+    LET bd0 == BufferDiag(e)
         v == J(e.v)
+        \* an integer whose numeral fits the buffer must not be refused (std::to_chars semantics; C14 presumes that an
+        \* adequate buffer yields the text, and the fixed-capacity variants rely on it)
+        bd == IF bd0 = "ok" /\ e.ec # 0 /\ ~IsScaledT(i.lt) /\ NumeralLen(v, i.base) <= e.cap THEN "refused_though_it_fits" ELSE bd0
         td == IF bd # "ok" \/ e.ec # 0 THEN "ok"
               ELSE IF IsScaledT(i.lt) THEN ScaledTextDiag(e.txt, v, TextRadix(i.lt), ExpOf(i.lt), e.cap >= i.capacity)
               ELSE IF IntTextOK(e.txt, v, i.base) THEN "ok" ELSE "text_not_value"
